@@ -788,19 +788,23 @@ func newTimeBucketInfoFromTemplate(newTimeBucketInfo *io.TimeBucketInfo) (err er
 	if _, err2 := os.Stat(newTimeBucketInfo.Path); err2 == nil {
 		return FileAlreadyExists("Can not overwrite file")
 	}
-	// Create the file
-	fp, err := os.OpenFile(newTimeBucketInfo.Path, os.O_CREATE|os.O_RDWR, 0o600)
+	// Create the file under a temporary name and give it its final name only when its header is on
+	// disk: a crash or power loss in between must not leave a year file without a valid header
+	// (the catalog picks up every *.bin file, and a header is never rewritten).
+	tmpPath := newTimeBucketInfo.Path + ".tmp"
+	fp, err := os.OpenFile(tmpPath, os.O_CREATE|os.O_TRUNC|os.O_RDWR, 0o600)
 	if err != nil {
-		return fmt.Errorf("open new time bucket info file %s: %w", newTimeBucketInfo.Path, err)
+		return fmt.Errorf("open new time bucket info file %s: %w", tmpPath, err)
 	}
+	closed := false
 	defer func() {
+		if closed {
+			return
+		}
 		if err2 := fp.Close(); err2 != nil {
 			log.Error("failed to close time bucket info file: %w", err2)
 		}
 	}()
-	if err != nil {
-		return UnableToCreateFile(err.Error())
-	}
 	if err = io.WriteHeader(fp, newTimeBucketInfo); err != nil {
 		return UnableToWriteHeader(err.Error())
 	}
@@ -816,6 +820,13 @@ func newTimeBucketInfoFromTemplate(newTimeBucketInfo *io.TimeBucketInfo) (err er
 	// WAL replay does not recreate headers: a write into this file may be acknowledged (WAL synced)
 	// long before the next checkpoint syncs the primary files, so the header must be durable now.
 	if err = fp.Sync(); err != nil {
+		return UnableToCreateFile(err.Error())
+	}
+	closed = true
+	if err = fp.Close(); err != nil {
+		return UnableToCreateFile(err.Error())
+	}
+	if err = os.Rename(tmpPath, newTimeBucketInfo.Path); err != nil {
 		return UnableToCreateFile(err.Error())
 	}
 
